@@ -112,10 +112,27 @@ impl Runner for BashRunner {
 
         // render the bash script
         let state_directory_str = self.state_directory.to_string_lossy();
+        // the names of the explicitly configured environment variables (only
+        // names that bash accepts; never empty, so that `declare -p` lists nothing else)
+        let mut configured_variables = testcase
+            .config
+            .environment
+            .keys()
+            .filter(|name| {
+                !name.is_empty()
+                    && !name.starts_with(|c: char| c.is_ascii_digit())
+                    && name.chars().all(|c| c.is_ascii_alphanumeric() || c == '_')
+            })
+            .map(|name| name.as_str())
+            .collect::<Vec<_>>();
+        if configured_variables.is_empty() {
+            configured_variables.push("__SCRUT_NO_CONFIGURED_VARIABLE");
+        }
         let expression = BASH_TEMPLATE
             .replace("{state_directory}", &state_directory_str)
             .replace("{name}", name)
             .replace("{excluded_variables}", &BASH_EXCLUDED_VARIABLES.join("|"))
+            .replace("{configured_variables}", &configured_variables.join(" "))
             .replace(
                 "{persist_state}",
                 if testcase.config.detached.unwrap_or(false) {
